@@ -97,8 +97,8 @@ def main(argv=None):
         body = json.load(fobj)
     if body['scenario']['kind'] == 'graph':
         return replay_graph(body, verbose)
-    mod = importlib.import_module('vmc.props.' + body['property'].lower())
     _env.setup()
+    mod = importlib.import_module('vmc.props.' + body['property'].lower())
     return mod.replay_case(body, verbose)
 
 
